@@ -8,7 +8,9 @@ package ext
 // of the stream, the first len(prefetched) of them come from the prefetched buffer, the rest from the wire.
 //@ macro bsFixed(rs) = rs.contentLength >= 0 && rs.prefetchedBytes != nil && rs.reader != nil && 0 <= rs.offset && rs.offset <= rs.contentLength && len(rs.prefetchedBytes.s) <= rs.contentLength && 0 <= rs.prefetchedBytes.i && rs.prefetchedBytes.i == ite(rs.offset <= len(rs.prefetchedBytes.s), rs.offset, len(rs.prefetchedBytes.s))
 
-// Read (fixed length): never takes more bytes from the wire than the body still has.
+// Read (fixed length): never takes more bytes from the wire than the body still has; the offset counts exactly the
+// bytes handed out - it jumps to the end (the state in which the drain step does nothing) only when the stream ended
+// (EOF), not on a read error such as a timeout, after which the rest of the body is still to come.
 // rdTrailerOK: the trailer section behind the last chunk was read without error. The end-of-body mark of a
 // chunked stream (chunkEOF, which makes skipRest a no-op) may only be set then.
 //@ ghost var rdTrailerOK bool
@@ -31,6 +33,7 @@ package ext
 //@   top-ensures old(rs.contentLength) == -1 && !old(rs.chunkEOF) && rs.chunkEOF ==> rdTrailerOK
 //@   top-ensures old(rs.contentLength) >= 0 ==> rs.reader.pos >= old(rs.reader.pos) && rs.reader.pos - old(rs.reader.pos) <= old(rs.contentLength - rs.offset)
 //@   ensures old(rs.contentLength) >= 0 ==> 0 <= n && n <= len(p)
+//@   top-ensures @C14 old(rs.contentLength) >= 0 && err != io.EOF && err != io.ErrUnexpectedEOF ==> rs.offset == old(rs.offset) + n
 
 // Reading or skipping the trailer section touches the reader and the trailer object; both are panic-free under
 // the reader model (the explicit panics of MustPeekBuffered / MustDiscard are proved unreachable at these calls).
